@@ -433,7 +433,7 @@ theorem previousElements_eq {h : Heap} {w : Wit} (hwf : WF h w) (x : Nat) :
 
 /-! ## 5. `next_siblings` / `previous_siblings` -/
 
-theorem tiles_nodup (pos size : Nat → Nat) : ∀ (ks : List Nat) (s e : Nat), Tiles pos size ks s e → ks.Nodup := by
+theorem tiles_nodup_it (pos size : Nat → Nat) : ∀ (ks : List Nat) (s e : Nat), Tiles pos size ks s e → ks.Nodup := by
   intro ks; induction ks with
   | nil => intro _ _ _; exact List.nodup_nil
   | cons k ks ih =>
@@ -446,7 +446,7 @@ theorem tiles_nodup (pos size : Nat → Nat) : ∀ (ks : List Nat) (s e : Nat), 
 
 /-- children lists are duplicate-free -/
 theorem kids_nodup {h : Heap} {w : Wit} (hwf : WF h w) (n : Nat) : (h.kids n).Nodup :=
-  tiles_nodup _ _ _ _ _ (hwf.tiles n)
+  tiles_nodup_it _ _ _ _ _ (hwf.tiles n)
 
 theorem tiles_length (pos size : Nat → Nat) : ∀ (ks : List Nat) (s e : Nat), Tiles pos size ks s e →
     s + ks.length ≤ e := by
